@@ -1386,6 +1386,28 @@ fn manifest_slice(req: &J) -> J {
     json!({"full": full, "sliced": {"decision": format!("{:?}", resp.decision), "reasons": rs, "errors": es}, "kept": kept})
 }
 
+/// strict validation of one policy, then (if it passes) evaluation on a conformant request: did evaluation raise a TYPE error?
+fn validate_eval(req: &J) -> J {
+    use cedar_policy::{Context, EntityUid, Schema, ValidationMode, Validator};
+    use std::str::FromStr;
+    let schema = match Schema::from_cedarschema_str(req["schema"].as_str().unwrap_or("")) { Ok(s) => s.0, Err(e) => return json!({"input_error": e.to_string()}) };
+    let ps = match PolicySet::from_str(req["policy"].as_str().unwrap_or("")) { Ok(p) => p, Err(e) => return json!({"valid": false, "parse_error": e.to_string()}) };
+    let res = Validator::new(schema.clone()).validate(&ps, ValidationMode::Strict);
+    if !res.validation_passed() {
+        return json!({"valid": false, "errors": res.validation_errors().map(|e| e.to_string()).collect::<Vec<_>>()});
+    }
+    let permissive = Validator::new(schema.clone()).validate(&ps, ValidationMode::Permissive).validation_passed();
+    let ents = match Entities::from_json_value(req["entities"].clone(), Some(&schema)) { Ok(e) => e, Err(e) => return json!({"input_error": e.to_string()}) };
+    let (p, a, r) = match (EntityUid::from_str(req["principal"].as_str().unwrap_or("")), EntityUid::from_str(req["action"].as_str().unwrap_or("")), EntityUid::from_str(req["resource"].as_str().unwrap_or(""))) {
+        (Ok(p), Ok(a), Ok(r)) => (p, a, r), _ => return json!({"input_error": "uids"}) };
+    let cx = match Context::from_json_value(req["context"].clone(), Some((&schema, &a))) { Ok(c) => c, Err(e) => return json!({"input_error": e.to_string()}) };
+    let q = match Request::new(p, a, r, cx, Some(&schema)) { Ok(q) => q, Err(e) => return json!({"input_error": e.to_string()}) };
+    let resp = Authorizer::new().is_authorized(&q, &ps, &ents);
+    let errs: Vec<String> = resp.diagnostics().errors().map(|e| e.to_string()).collect();
+    let type_error = errs.iter().any(|e| e.contains("type error") || e.contains("does not have the attribute") || e.contains("does not have the tag") || e.contains("not a known extension function"));
+    json!({"valid": true, "permissive": permissive, "decision": format!("{:?}", resp.decision()), "type_error": type_error, "error": errs.first()})
+}
+
 fn handle(req: &J) -> J {
     match req["op"].as_str().unwrap_or("") {
         "eval" => eval(req),
@@ -1410,6 +1432,7 @@ fn handle(req: &J) -> J {
         "proto_roundtrip" => proto_roundtrip(req),
         "permission_query" => permission_query(req),
         "fuzzy" => fuzzy(req),
+        "validate_eval" => validate_eval(req),
         "manifest_slice" => manifest_slice(req),
         "est_print" => est_print(req),
         "ffi_convert" => ffi_convert(req),
